@@ -302,6 +302,13 @@ def run(run_, pkg, tier):
         key = "C08-c/Graph.calc_chi2/parallel-edges=%d" % k
         if run_.wants(key):
             tasks.append((key, "C08-c-edge-splitting", graph_parallel_sum_obligation(k), "%s:%d" % (cgfn._gs_module, cgfn.lineno)))
+    # files: an edge listed twice (two identical half-information edges) is two edges; ids of any size are names and come back
+    # exactly (they never travel through floating point) -- shared with C14's file scenario
+    from .c14 import file_obligation
+    ffn = pkg.method("Graph", "from_g2o")
+    key = "C08-ac/from_g2o/duplicate-edge-lines-and-exact-ids"
+    if run_.wants(key):
+        tasks.append((key, "C08-ac-file-describes-the-same-graph", file_obligation("plain"), "%s:%d" % (ffn._gs_module, ffn.lineno)))
     gfn = pkg.method("Graph", "_calc_chi2_gradient_hessian")
     perms = [Scenario("order-reversed", ["PoseR2", "PoseSE2", "PoseR2"][::-1], [tuple(2 - k for k in e) for e in BASE_E], fixed=[2]),
              [s for s in SCENARIOS if s.name == "parallel-only"][0], [s for s in SCENARIOS if s.name == "parallel-free"][0],
